@@ -32,6 +32,21 @@ func verifC06_close() {
 	code := vI64("code")
 	rl := vReasonLens[vChoose("reasonLen", vParam("reasonLens", 5))]
 	reason := vBytes("reason", rl)
+	// reasons are byte strings: besides arbitrary (symbolic) bytes, two concrete shapes in which bytes, characters and
+	// "cleaned-up" bytes differ in number: isolated invalid UTF-8 bytes, and two-byte characters
+	switch vChoose("reasonKind", 3) {
+	case 1:
+		for i := range reason {
+			reason[i] = []byte{0xff, 'a'}[i%2]
+		}
+	case 2:
+		for i := range reason {
+			reason[i] = []byte{0xc3, 0xa9}[i%2]
+		}
+		if rl%2 == 1 {
+			reason[rl-1] = 'a'
+		}
+	}
 	// the peer: optionally one data frame that must be discarded, then its Close frame (or silence / EOF)
 	var peer []vFrame
 	mk := func(f vFrame) vFrame {
